@@ -136,6 +136,10 @@ func runC04(r *Run) {
 	}
 	r.RunTaskGroup("array index shifting under all map orders", "sched", args)
 	reportBounds(r, pre)
+	// plain variables shared between the commit's goroutines are invisible to a scheduler that switches at
+	// synchronisation operations only: the same scenario bodies run free under the race detector (as in C16); an
+	// unsynchronised access in the commit makes the ledger depend on timing
+	raceComplement(r)
 	// object-pool reuse across encodes of very different sizes: a collision-group slab far beyond 64 KiB goes through
 	// the pooled buffers, then further slabs are encoded with whatever the pool hands back (LIFO shim: the same
 	// buffer at once); every register must still decode, re-encode identically and hold the model's content
